@@ -238,6 +238,8 @@ func (sh *shard) add(s string) int {
 	return i
 }
 
+var seedOffset int64
+
 func buildShard(e ecoDef, k int, r *rand.Rand, fixtures []string, pool, extra, nrules int) *shard {
 	g := &gen{r}
 	sh := &shard{eco: e, k: k, index: map[string]int{}}
@@ -316,6 +318,15 @@ func buildShard(e ecoDef, k int, r *rand.Rand, fixtures []string, pool, extra, n
 		}
 		ib := sh.add(b)
 		sh.pairs = append(sh.pairs, [2]int{ia, ib})
+	}
+	// --- non-ASCII Unicode classes in every token position (shard 0: deterministic sweep): against the base version and
+	// against themselves, both argument orders -> no panic, antisymmetry, reflexivity; plus the model correspondence
+	if k == 0 {
+		ib := sh.add(unicodeBases[e.kind])
+		for _, s := range unicodeClassStrings(e.kind, int(seedOffset)+len(e.name)) {
+			is := sh.add(s)
+			sh.pairs = append(sh.pairs, [2]int{is, ib}, [2]int{is, is})
+		}
 	}
 	// --- canonical-rule cases: published chains (fixed) + rule-constructed pairs (fresh per shard)
 	rcs := append(publishedChains(e.kind), ruleCases(e.kind, g, nrules)...)
@@ -484,6 +495,7 @@ func main() {
 	replay := flag.String("replay", "", "replay file: {\"case\":{\"eco\":..., \"hex\":[...]}}")
 	flag.Parse()
 	registerKinds()
+	seedOffset = *seed
 
 	if *replay != "" {
 		doReplay(*replay, *outdir)
